@@ -54,7 +54,8 @@ def case_strategy(draw):
             for v in draw(st.lists(st.sampled_from(used), min_size=1, max_size=2, unique=True)):
                 inject[v] = sorted(draw(st.sets(st.integers(0, len(rows) - 1), min_size=1, max_size=len(rows))))
         history.append({"rows": rows, "inject": inject, "from": draw(st.sampled_from(["training", "previous", "previous"])),
-                        "new_index": draw(st.sampled_from([None, None, "reversed", "offset", "strings", "repeated"]))})
+                        "new_index": draw(st.sampled_from([None, None, "reversed", "offset", "strings", "repeated"])),
+                        "fractional": draw(st.integers(0, 2)) == 0})
     holes = None
     numeric_used = sorted(c for c in rich.used_columns(d) if frames.column(spec, c)["kind"] == "float" and c in ("x", "z", "y", "p"))
     if numeric_used and draw(st.integers(0, 3)) == 0:
@@ -227,6 +228,11 @@ def judge(ctx, case):
         for step, h in enumerate(case["history"]):
             sub = {"frame": spec, "rows": h["rows"], "inject": h["inject"], "as_categorical": False, "new_index": h.get("new_index")}
             _, new = c10.new_frames(sub)
+            if h.get("fractional"):
+                # a column that held whole numbers in training holds fractions now
+                for col_ in ("x", "z"):
+                    if col_ in new.columns and new[col_].dtype.kind in "iu" and not (h["inject"] and col_ in h["inject"]):
+                        new[col_] = new[col_].astype(float) + 0.5
             config["EVAL_UNSEEN_CATEGORIES"] = "silent" if h["inject"] else "error"
             for kind in ("common", "group"):
                 src = (dm.common if kind == "common" else dm.group) if h["from"] == "training" else prev[kind]
